@@ -148,6 +148,11 @@ pub fn run_codegen(src: &str, times: usize) -> Outcome {
 }
 
 pub fn search_codegen(tier: &str) -> Option<Value> {
+    // grammars whose conflicts are accepted by %expect: the conflict lists are part of the serialised table
+    for g in ["%start E\n%expect 4\n%%\nE: E '+' E | E '*' E | 'a';", "%start E\n%expect 9\n%%\nE: E '+' E | E '*' E | E '-' E | 'a';", "%start S\n%expect 1\n%expect-rr 1\n%%\nS: A 'x' | B 'x' | 'i' S | 'i' S 'e' S;\nA: 'a';\nB: 'a';"] {
+        let o = run_codegen(g, 12);
+        if o.fails { return Some(witness("c15_codegen", json!({"grammar": g}), &o)); }
+    }
     let n = if tier == "thorough" { 40 } else { 6 };
     for seed in 1..=n {
         let mut g = String::from("%start S\n%%\nS: ");
